@@ -75,14 +75,32 @@ impl Extension {
     pub(crate) fn validate_prototype(prototype: &[Record], extensions: &[Extension]) -> Result<()> {
         for record in prototype {
             if let RecordName::Unknown { namespace, name } = &record.name {
-                Self::validate_name(namespace)?;
-                Self::validate_name(name)?;
+                Self::validate_xml_name(namespace)?;
+                Self::validate_xml_name(name)?;
                 if !extensions.iter().any(|e| &e.namespace == namespace) {
                     Error::invalid(format!(
                         "Cannot find extension namespace {namespace} used by attribute {name}, please register extension first"
                     ))?
                 }
             }
+        }
+        Ok(())
+    }
+
+    /// Names end up as prefixes and element names in the XML section. Besides the allowed
+    /// characters, XML requires such names to start with a letter or an underscore;
+    /// files with other names cannot be opened again.
+    pub(crate) fn validate_xml_name(name: &str) -> Result<()> {
+        Self::validate_name(name)?;
+        let valid_start = name
+            .chars()
+            .next()
+            .map(|c| c.is_ascii_alphabetic() || c == '_')
+            .unwrap_or(false);
+        if !valid_start {
+            Error::invalid(format!(
+                "Strings used as XML namespaces or attributes must start with a letter or an underscore: '{name}'"
+            ))?
         }
         Ok(())
     }
